@@ -37,78 +37,284 @@ theorem xorAll_subst_ne (pre post : List Nat) (b b' : Nat) (h : b ≠ b') :
 
 /-- the XOR of bytes is a byte -/
 theorem xorAll_lt (l : List Nat) (h : ∀ b ∈ l, b < 256) : xorAll l < 256 := by
-  sorry
+  induction l with
+  | nil => simp [xorAll]
+  | cons x xs ih =>
+    rw [xorAll_cons]
+    have h1 : x < 2^8 := h x (by simp)
+    have h2 : xorAll xs < 2^8 := ih (fun b hb => h b (by simp [hb]))
+    exact Nat.xor_lt_two_pow h1 h2
+
+theorem pyInt16_hex2_all :
+    (List.range 256).all (fun x => decide (pyInt16 (hex2 x) = some (x : Int))) = true := by
+  decide +kernel
 
 /-- `int(b"{:02X}".format(x), 16) = x` for every byte value -/
 theorem pyInt16_hex2 (x : Nat) (h : x < 256) : pyInt16 (hex2 x) = some (x : Int) := by
-  sorry
+  have := List.all_eq_true.mp pyInt16_hex2_all x (List.mem_range.mpr h)
+  simpa using this
+
+theorem hexDigitUpper_clean : ∀ v, v < 16 →
+    hexDigitUpper v ≠ STAR ∧ hexDigitUpper v ≠ COMMA ∧ isSpace (hexDigitUpper v) = false := by
+  decide
 
 /-- the bytes of `"{:02X}"` contain neither `*` nor `,` nor whitespace -/
 theorem hex2_clean (x : Nat) : ∀ b ∈ hex2 x, b ≠ STAR ∧ b ≠ COMMA ∧ isSpace b = false := by
-  sorry
+  intro b hb
+  simp only [hex2, List.mem_cons, List.not_mem_nil, or_false] at hb
+  rcases hb with rfl | rfl
+  · exact hexDigitUpper_clean _ (Nat.mod_lt _ (by decide))
+  · exact hexDigitUpper_clean _ (Nat.mod_lt _ (by decide))
+
+theorem exists_last_occ (a : Nat) (s : List Nat) (h : a ∈ s) : ∃ u v, s = u ++ a :: v ∧ a ∉ v := by
+  induction s with
+  | nil => simp at h
+  | cons x xs ih =>
+    by_cases hx : a ∈ xs
+    · obtain ⟨u, v, rfl, hv⟩ := ih hx
+      exact ⟨x :: u, v, by simp, hv⟩
+    · have : a = x := by
+        rcases List.mem_cons.mp h with h | h
+        · exact h
+        · exact absurd h hx
+      subst this
+      exact ⟨[], xs, by simp, hx⟩
+
+theorem lastField_of_not_mem (s : Bytes) (h : COMMA ∉ s) : (split COMMA s).getLastD [] = s := by
+  simp [split, List.splitOn_eq_singleton h]
+
+theorem lastField_of_last_occ (u v : Bytes) (h : COMMA ∉ v) :
+    (split COMMA (u ++ COMMA :: v)).getLastD [] = v := by
+  simp [split, List.splitOn_append_cons_self, List.splitOn_eq_singleton h]
 
 /-- the last comma field of `s ++ t` when `t` contains no comma -/
 theorem lastField_append (s t : Bytes) (ht : COMMA ∉ t) :
     (split COMMA (s ++ t)).getLastD [] = (split COMMA s).getLastD [] ++ t := by
-  sorry
+  by_cases hs : COMMA ∈ s
+  · obtain ⟨u, v, rfl, hv⟩ := exists_last_occ _ _ hs
+    rw [lastField_of_last_occ u v hv]
+    have : u ++ COMMA :: v ++ t = u ++ COMMA :: (v ++ t) := by simp
+    rw [this, lastField_of_last_occ u (v ++ t) (by simp [hv, ht])]
+  · rw [lastField_of_not_mem s hs, lastField_of_not_mem (s ++ t) (by simp [hs, ht])]
 
 /-- the last comma field is a suffix of the line -/
 theorem lastField_suffix (s : Bytes) : ∃ pre, s = pre ++ (split COMMA s).getLastD [] := by
-  sorry
+  by_cases hs : COMMA ∈ s
+  · obtain ⟨u, v, rfl, hv⟩ := exists_last_occ _ _ hs
+    rw [lastField_of_last_occ u v hv]
+    exact ⟨u ++ [COMMA], by simp⟩
+  · rw [lastField_of_not_mem s hs]
+    exact ⟨[], by simp⟩
 
 /-- `chk_to_int` on `fill*HH` -/
 theorem chkToInt_star (u hh : Bytes) (hu : STAR ∉ u) (hh' : STAR ∉ hh) :
     (chkToInt (u ++ [STAR] ++ hh)).2 = (match pyInt16 hh with | some i => i | none => -1) := by
-  sorry
+  have h1 : split STAR (u ++ [STAR] ++ hh) = [u, hh] := by
+    have : u ++ [STAR] ++ hh = u ++ STAR :: hh := by simp
+    rw [this, split, List.splitOn_append_cons_self_of_not_mem hu, List.splitOn_eq_singleton hh']
+  have h2 : (u ++ [STAR] ++ hh).isEmpty = false := by simp
+  unfold chkToInt
+  rw [h2, h1]
+  first | rfl | (generalize pyInt16 hh = r; cases r <;> rfl)
+
+theorem split1_of_not_mem (sep : Byte) (body rest : Bytes) (hb : sep ∉ body) :
+    split1 sep (body ++ sep :: rest) = (body, some rest) := by
+  induction body with
+  | nil => simp [split1]
+  | cons x xs ih =>
+    have hx : x ≠ sep := fun h => hb (by simp [h])
+    have hxs : sep ∉ xs := fun h => hb (by simp [h])
+    simp [split1, hx, ih hxs]
 
 /-- `msg[1:].split(b'*', 1)[0]` of `d body * rest` is `body` when `body` has no `*` -/
 theorem checksumBody_eq (d : Byte) (body rest : Bytes) (hb : STAR ∉ body) :
     checksumBody ([d] ++ body ++ [STAR] ++ rest) = body := by
-  sorry
+  have : ([d] ++ body ++ [STAR] ++ rest).drop 1 = body ++ STAR :: rest := by simp
+  rw [checksumBody, this, split1_of_not_mem _ _ _ hb]
 
 /-- **The validity flag, stated generally**: whatever the line looks like, if it parses, the flag
 compares the number `chk_to_int` reads from the last comma field with the XOR of the body. -/
 theorem nmeaInit_valid (raw : Bytes) (s : Sentence) (h : nmeaInit raw = .ok s) :
     s.isValid = ((chkToInt ((split COMMA raw).getLastD [])).2 == (xorAll (checksumBody raw) : Int)) ∧
     s.raw = raw := by
-  sorry
+  simp only [nmeaInit, bind, Except.bind] at h
+  split at h
+  · cases h
+  · split at h
+    · cases h
+    · split at h
+      · cases h
+      · rename_i cs hcs
+        have hcs' : cs = xorAll (checksumBody raw) := by
+          simp only [computeChecksum] at hcs
+          split at hcs
+          · cases hcs
+          · exact (Except.ok.inj hcs).symm
+        have := Except.ok.inj h
+        subst this
+        subst hcs'
+        exact ⟨rfl, rfl⟩
 
 /-- **The validity flag for sentences of the standard form** `d body * HH` (`HH` two hex digits,
 no `*` in the body, `d` the start delimiter): valid iff `HH` is the XOR of the body. -/
 theorem nmeaInit_flag (d : Byte) (body : Bytes) (x : Nat) (hd : d ≠ STAR) (hb : STAR ∉ body) (hx : x < 256)
     (s : Sentence) (h : nmeaInit ([d] ++ body ++ [STAR] ++ hex2 x) = .ok s) :
     s.isValid = decide (x = xorAll body) := by
-  sorry
+  obtain ⟨hv, _⟩ := nmeaInit_valid _ s h
+  rw [hv]
+  have hraw : [d] ++ body ++ [STAR] ++ hex2 x = ([d] ++ body) ++ ([STAR] ++ hex2 x) := by simp
+  have hclean := hex2_clean x
+  have ht : COMMA ∉ [STAR] ++ hex2 x := by
+    intro hm
+    rcases List.mem_append.mp hm with hm | hm
+    · simp [STAR, COMMA] at hm
+    · exact (hclean _ hm).2.1 rfl
+  have hlast : (split COMMA ([d] ++ body ++ [STAR] ++ hex2 x)).getLastD []
+      = (split COMMA ([d] ++ body)).getLastD [] ++ [STAR] ++ hex2 x := by
+    rw [hraw, lastField_append _ _ ht]; simp
+  obtain ⟨pre, hpre⟩ := lastField_suffix ([d] ++ body)
+  generalize (split COMMA ([d] ++ body)).getLastD [] = u at *
+  have hu : STAR ∉ u := by
+    intro hm
+    have hmem : STAR ∈ [d] ++ body := by rw [hpre]; simp [hm]
+    rcases List.mem_append.mp hmem with h1 | h1
+    · have : STAR = d := by simpa using h1
+      exact hd this.symm
+    · exact hb h1
+  rw [hlast, chkToInt_star u _ hu (fun hm => (hclean _ hm).1 rfl), pyInt16_hex2 x hx,
+    checksumBody_eq d body _ hb]
+  by_cases hxe : x = xorAll body
+  · simp [hxe]
+  · have : (x : Int) ≠ (xorAll body : Int) := by omega
+    simp [hxe, this]
 
 /-- the AIS and Gatehouse constructors only add fields to what `NMEASentence.__init__` computed -/
 theorem aisInit_valid (k : NmeaConsts) (raw : Bytes) (s : Sentence) (h : aisInit k raw = .ok s) :
     ∃ s0, nmeaInit raw = .ok s0 ∧ s.isValid = s0.isValid ∧ s.raw = raw := by
-  sorry
+  simp only [aisInit, bind, Except.bind] at h
+  split at h
+  · cases h
+  · rename_i s0 h0
+    have hraw := (nmeaInit_valid raw s0 h0).2
+    refine ⟨s0, h0, ?_⟩
+    split at h
+    · cases h
+    · split at h
+      · cases h
+      · split at h
+        · cases h
+        · split at h
+          · cases h
+          · split at h
+            · cases h
+            · cases h
+              exact ⟨rfl, hraw⟩
 
 theorem ghInit_valid (raw : Bytes) (s : Sentence) (h : ghInit raw = .ok s) :
     ∃ s0, nmeaInit raw = .ok s0 ∧ s.isValid = s0.isValid ∧ s.raw = raw := by
-  sorry
+  simp only [ghInit, bind, Except.bind] at h
+  split at h
+  · cases h
+  · rename_i s0 h0
+    have hraw := (nmeaInit_valid raw s0 h0).2
+    refine ⟨s0, h0, ?_⟩
+    split at h
+    · cases h
+    · cases h
+      exact ⟨rfl, hraw⟩
+
+theorem dropWhile_id_of_head (p : Nat → Bool) (l : List Nat)
+    (h : ∀ b, l.head? = some b → p b = false) : l.dropWhile p = l := by
+  cases l with
+  | nil => rfl
+  | cons b bs => exact List.dropWhile_cons_of_neg (by simp [h b rfl])
 
 /-- `strip` leaves a line alone that neither starts nor ends with whitespace -/
 theorem strip_id (s : Bytes) (h1 : ∀ b, s.head? = some b → isSpace b = false)
     (h2 : ∀ b, s.getLast? = some b → isSpace b = false) : strip s = s := by
-  sorry
+  unfold strip lstrip rstrip
+  rw [dropWhile_id_of_head _ s h1, dropWhile_id_of_head _ s.reverse (by simpa using h2)]
+  simp
+
+theorem preProcess_plain (raw : Bytes) (d : Byte) (rest : Bytes) (hraw : raw = d :: rest)
+    (hd : d ≠ BACKSLASH) (hs : strip raw = raw) : preProcess raw = .ok (raw, none) := by
+  unfold preProcess
+  rw [hs]
+  subst hraw
+  simp [hd]
+
+theorem produce_plain (k : NmeaConsts) (raw : Bytes) (s : Sentence)
+    (hp : preProcess raw = .ok (raw, none)) (h : produce k raw = .ok s) :
+    produceRaw k raw = .ok s := by
+  unfold produce at h
+  split at h
+  · cases h
+  · simp only [hp, bind, Except.bind] at h
+    cases hr : produceRaw k raw with
+    | error e => simp [hr] at h; split at h <;> cases h
+    | ok s' => simpa [hr] using h
+
+theorem produceRaw_valid (k : NmeaConsts) (raw : Bytes) (s : Sentence) (h : produceRaw k raw = .ok s) :
+    ∃ s0, nmeaInit raw = .ok s0 ∧ s.isValid = s0.isValid ∧ s.raw = raw := by
+  unfold produceRaw at h
+  simp only at h
+  split at h
+  · exact aisInit_valid k raw s h
+  · split at h
+    · exact ghInit_valid raw s h
+    · cases h
 
 /-- the factory on a line of the standard form without tag block and surrounding whitespace -/
 theorem produce_flag (k : NmeaConsts) (d : Byte) (body : Bytes) (x : Nat)
     (hd : d ≠ STAR ∧ d ≠ BACKSLASH ∧ isSpace d = false) (hb : STAR ∉ body) (hx : x < 256)
     (s : Sentence) (h : produce k ([d] ++ body ++ [STAR] ++ hex2 x) = .ok s) :
     s.isValid = decide (x = xorAll body) := by
-  sorry
+  have hstrip : strip ([d] ++ body ++ [STAR] ++ hex2 x) = [d] ++ body ++ [STAR] ++ hex2 x := by
+    apply strip_id
+    · intro b hb'
+      have : b = d := by simpa using hb'.symm
+      rw [this]; exact hd.2.2
+    · intro b hb'
+      have hm : b ∈ hex2 x := by
+        have hl : [d] ++ body ++ [STAR] ++ hex2 x
+            = ([d] ++ body ++ [STAR] ++ [hexDigitUpper (x / 16 % 16)]) ++ [hexDigitUpper (x % 16)] := by
+          simp [hex2]
+        rw [hl, List.getLast?_concat] at hb'
+        simp [hex2, ← Option.some.inj hb']
+      exact (hex2_clean x b hm).2.2
+  have hp := preProcess_plain _ d (body ++ [STAR] ++ hex2 x) (by simp) hd.2.1 hstrip
+  obtain ⟨s0, h0, hv, _⟩ := produceRaw_valid k _ s (produce_plain k _ s hp h)
+  rw [hv]
+  exact nmeaInit_flag d body x hd.1 hb hx s0 h0
+
+theorem insertByNum_all (p : Sentence → Bool) (x : Sentence) (l : List Sentence) :
+    (insertByNum x l).all p = (p x && l.all p) := by
+  induction l with
+  | nil => simp [insertByNum]
+  | cons y ys ih =>
+    unfold insertByNum
+    split
+    · simp [ih, Bool.and_left_comm]
+    · simp
 
 /-- sorting by fragment number does not change which sentences there are -/
 theorem sortByNum_all (p : Sentence → Bool) (l : List Sentence) : (sortByNum l).all p = l.all p := by
-  sorry
+  induction l with
+  | nil => simp [sortByNum]
+  | cons x xs ih =>
+    have : sortByNum (x :: xs) = insertByNum x (sortByNum xs) := rfl
+    rw [this, insertByNum_all, ih]; simp
 
 /-- **Assembled validity** is the conjunction of the parts' validity. -/
 theorem assemble_valid (ps : List Sentence) (s : Sentence) (h : assemble ps = some s) :
     s.isValid = ps.all (·.isValid) := by
-  sorry
+  unfold assemble at h
+  cases ps with
+  | nil => cases h
+  | cons m0 rest =>
+    simp only at h
+    cases h
+    simp only [sortByNum_all]
 
 /-- with every argument parsing, the strict collection loop fails exactly when some parsed argument
 is flagged invalid, and otherwise does what the lenient loop does -/
@@ -117,6 +323,20 @@ theorem oneShotCollect_strict (k : NmeaConsts) (args : List Bytes) (ss : List Se
     oneShotCollect k true args temp cnt =
       if ss.all (·.isValid) then oneShotCollect k false args temp cnt
       else .error .invalidNMEAChecksum := by
-  sorry
+  induction args generalizing ss temp cnt with
+  | nil =>
+    cases ss with
+    | nil => simp [oneShotCollect]
+    | cons s ss' => simp at hparse
+  | cons a rest ih =>
+    cases ss with
+    | nil => simp at hparse
+    | cons s ss' =>
+      simp only [List.map_cons, List.cons.injEq] at hparse
+      obtain ⟨hp, hrest⟩ := hparse
+      unfold oneShotCollect
+      rw [hp]
+      simp only
+      cases hv : s.isValid <;> cases ha : s.isAIS <;> simp [ih ss' hrest, hv]
 
 end Model
